@@ -783,7 +783,8 @@ class Schedule(Strategy):
                     self.evaluate_core_standing_time_ahead()
                 charging_stations = self.charge_vehicles_during_core_standing_time()
                 if any([v.vehicle_type.v2g for v in self.world_state.vehicles.values()]):
-                    self.charge_vehicles_during_core_standing_time_v2g(charging_stations)
+                    charging_stations = self.charge_vehicles_during_core_standing_time_v2g(
+                        charging_stations)
             else:
                 # charge excess power from local generation greedy outside of core standing time ON
                 # schedule
